@@ -7,6 +7,10 @@ import time_machine
 import lib
 # nothing the library or asyncio logs is printed; levels stay effective (logging.disable would make isEnabledFor false everywhere)
 logging.getLogger("aioswitcher").addHandler(logging.NullHandler()); logging.getLogger("aioswitcher").propagate = False
+# an application that runs with warnings as errors (-W error, pytest's filterwarnings = error): a deprecation warning attributed to the
+# LIBRARY's own modules - the library itself calling something deprecated while serving an ordinary call - is an exception there
+import warnings as _w
+for _c in (DeprecationWarning, PendingDeprecationWarning, FutureWarning): _w.filterwarnings("error", category=_c, module=r"aioswitcher(\..*)?$")
 logging.getLogger("asyncio").addHandler(logging.NullHandler()); logging.getLogger("asyncio").propagate = False
 logging.getLogger().addHandler(logging.NullHandler()); logging.lastResort = None
 from aioswitcher.api import SwitcherType1Api, SwitcherType2Api, Command
@@ -121,8 +125,14 @@ def model_op_args(kind, a, now):
 def waves_arg(irset): return [[w["Key"], w["Para"], w["HexCode"]] for w in irset["IRWaveList"]]
 
 
+def clock_after_login(case):
+    """what is computed after the login reply (today's midnight of create_schedule) sees the clock as it is then"""
+    return case["now"] + (int(case["delays"][0]) if case.get("clock_moves") and case.get("delays") else 0)
+
+
 def model_line(case):
-    return lib.req("op", case["kind"], case["id"], case["key"], case["now"], model_op_args(case["kind"], case["args"], case["now"]),
+    later = clock_after_login(case)
+    return lib.req("op", case["kind"], case["id"], case["key"], case["now"], model_op_args(case["kind"], case["args"], later),
                    [bytes.fromhex(r) for r in case["replies"]])
 
 
@@ -155,7 +165,8 @@ class ScriptedApi:
         self.frames.clear(); self.script[:] = list(replies); self.pending = b""
         try:
             if self.hung: raise asyncio.TimeoutError()          # an earlier call on this object never returned: no point in waiting again
-            with time_machine.travel(float(now) + (int(now) % 997) / 2000.0, tick=False):       # never a whole second; below the half, since the timestamp of a frame is the ROUNDED clock
+            with time_machine.travel(float(now) + (int(now) % 997) / 2000.0, tick=False) as trav:       # never a whole second; below the half, since the timestamp of a frame is the ROUNDED clock
+                self.trav = trav
                 r = await asyncio.wait_for(call_op(self.api, kind, args), self.patience)
             out = show_response(kind, r)
         except asyncio.TimeoutError:
@@ -204,14 +215,31 @@ def run_virtual(coro):
 class SlowApi(ScriptedApi):
     """scripted stream whose every reply arrives after a scripted (virtual) delay"""
     def __init__(self, *a):
-        super().__init__(*a); self.delays = []; self.patience = 10 ** 7        # virtual seconds: far beyond every scripted delay
+        super().__init__(*a); self.delays = []; self.moving = False; self.patience = 10 ** 7        # virtual seconds: far beyond every scripted delay
         async def read(n):
             d = self.delays.pop(0) if self.delays else 0
-            if d: await asyncio.sleep(d)
+            if d:
+                await asyncio.sleep(d)
+                if self.moving and getattr(self, "trav", None) is not None: self.trav.shift(d)      # the wall clock moves while the device takes its time
             if not self.pending: self.pending = self.script.pop(0) if self.script else b""
             out, self.pending = self.pending[:n], self.pending[n:]
             return out
         self.api._reader.read = read
+
+
+def run_cases_second(cases, rnd):
+    """each case as the SECOND operation on an api object: first another operation of the same class (a command, fully answered and
+    acknowledged) - what the object did or saw before is not a source for this one"""
+    async def go():
+        res = []
+        for c in cases:
+            t2 = c["kind"] in TYPE2_KINDS
+            first = rand_op_case(rnd, rnd.choice([7, 8]) if t2 else rnd.choice([1, 1, 3, 5]), "valid", True)
+            s = ScriptedApi(t2, c["id"], c["key"])
+            await s.run(first["kind"], first["args"], [bytes.fromhex(r) for r in first["replies"]], c["now"] - 30)
+            res.append(await s.run(c["kind"], c["args"], [bytes.fromhex(r) for r in c["replies"]], c["now"]))
+        return res
+    return asyncio.run(go())
 
 
 SLOW_DELAYS = [0, 0.2, 1.9, 2.1, 4.9, 5.1, 9.9, 10.1, 29, 31, 59, 61, 125, 601, 3700, 90000]
@@ -222,14 +250,16 @@ def run_cases_slow(cases, rnd):
         res = []
         for c in cases:
             if "delays" not in c: c["delays"] = [rnd.choice(SLOW_DELAYS) for _ in c["replies"]]
-            api = SlowApi(c["kind"] in TYPE2_KINDS, c["id"], c["key"]); api.delays[:] = list(c["delays"])
+            api = SlowApi(c["kind"] in TYPE2_KINDS, c["id"], c["key"]); api.delays[:] = list(c["delays"]); api.moving = bool(c.get("clock_moves"))
             res.append(await api.run(c["kind"], c["args"], [bytes.fromhex(r) for r in c["replies"]], c["now"]))
         return res
     return run_virtual(go())
 
 
 def with_delays(rnd, cases):
-    for c in cases: c["delays"] = [rnd.choice(SLOW_DELAYS) for _ in c["replies"]]
+    """... and for every other case the wall clock moves along with the device's delays (otherwise it stands still during the exchange)"""
+    for k, c in enumerate(cases):
+        c["delays"] = [rnd.choice(SLOW_DELAYS) for _ in c["replies"]]; c["clock_moves"] = k % 2 == 0
     return cases
 
 
@@ -578,7 +608,7 @@ def scribble(obj):
         except Exception: pass
 
 
-async def feed_bridge(n_ports, events, raising=(), show=None, sentinel=None, serial=False, restarts=0, ports=None, during_start=None):
+async def feed_bridge(n_ports, events, raising=(), show=None, sentinel=None, serial=False, restarts=0, ports=None, during_start=None, occupy=None):
     """events: [(port index, datagram bytes)] sent in order from one socket in paced bursts, then one sentinel per port as
     delivery barrier.  Returns (callback log [rendered device], loop-exception-handler calls, warnings).
     `raising`: indices of callback invocations (global count) on which the user's callback raises."""
@@ -594,7 +624,7 @@ async def feed_bridge(n_ports, events, raising=(), show=None, sentinel=None, ser
         k = len(log); log.append(show(dev))
         scribble(dev)
         if k in raising: raise KeyError("user callback failure %d" % k)
-    bridge = SwitcherBridge(cb, ports) if ports != WELL_KNOWN_PORTS else SwitcherBridge(cb)        # the default port list of the library
+    bridge = SwitcherBridge(cb, list(ports)) if ports != WELL_KNOWN_PORTS else SwitcherBridge(cb)        # the default port list of the library (else: a list of its own)
     tx = socket.socket(socket.AF_INET, socket.SOCK_DGRAM)
     with warnings.catch_warnings(record=True) as w:
         warnings.simplefilter("always")
@@ -615,7 +645,19 @@ async def feed_bridge(n_ports, events, raising=(), show=None, sentinel=None, ser
             await task
             feed_bridge.sent_early = sent_early
         else:
-            await bridge.start()
+            taken = None
+            if occupy is not None:          # another program holds one of the configured ports when the bridge is started: start() refuses (C17) -
+                taken = socket.socket(socket.AF_INET, socket.SOCK_DGRAM); taken.bind(("0.0.0.0", ports[occupy]))      # or, if it does not, what it listens on must work
+            try: await bridge.start()
+            except OSError:
+                if taken is None: raise
+                taken.close(); tx.close(); loop.set_exception_handler(old)
+                for t in list(getattr(bridge, "_transports", {}).values()):
+                    if t and not t.is_closing(): t.close()
+                await asyncio.sleep(0)
+                return None, 0, 0, True
+            finally:
+                if taken is not None: taken.close()
         try:
             for _ in range(restarts):               # the same bridge object stopped and started again before anything is sent
                 await bridge.stop()
